@@ -61,16 +61,17 @@ def jobs(tier):
         for h in (0, 3, 6):
             J.append(tierb('C02', 'cg', W, 3, [h], obj='max', cg_mask=15, checks=ck)); J.append(tierb('C02', 'cg', W, 3, [h], obj='min', cg_mask=11, checks=ck))
             J.append(tierb('C02', 'dp', VEC['dp-doctest'], 3, [h], obj='diff', checks=ck))
-        for pair in ((0, 1), (1, 4), (2, 6), (3, 5)):
+        for pair in ((1, 4), (3, 5)):
             J.append(tierb('C02', 'rnp', W, 4, list(pair), obj='diff', checks=ck, mandatory=False))
         for h in (0, 3, 7):
-            J.append(tierb('C02', 'rnp', VEC['snp-test-8'], 4, [h], obj='diff', checks=ck)); J.append(tierb('C02', 'rnp', VEC['ilp-doctest-8'], 4, [h], obj='diff', checks=ck, mandatory=False))
+            J.append(tierb('C02', 'rnp', VEC['snp-test-8'], 4, [h], obj='diff', checks=ck))
+        J.append(tierb('C02', 'rnp', VEC['ilp-doctest-8'], 4, [3], obj='diff', checks=ck, mandatory=False))
         for o in ('diff', 'max', 'min', 'klargest:2', 'ksmallest:2'):
             J.append(job('C02', 'ilp', 3, 3, obj=o, checks=ck)); J.append(job('C02', 'ilp', 4, 2, obj=o, checks=ck))
         for alg in EXACT_DIFF + ('cg',):
-            for (n, k) in [(5, 2), (5, 4)]:
+            for (n, k) in [(5, 2), (5, 4), (4, 4), (4, 5)]:
                 kw = dict(cg_mask=11) if alg == 'cg' else {}
-                J.append(job('C02', alg, n, k, obj='diff', order='desc', checks=ck, **kw))
+                J.append(job('C02', alg, n, k, obj='diff', order='desc', checks=ck, mandatory=not (k == 4 and n == 5 and alg in ('snp', 'ckk')), **kw))
         for o in OBJ3:
             J.append(job('C02', 'dp', 5, 2, obj=o, order='desc', checks=ck))
             J.append(job('C02', 'cg', 5, 3, obj=o, cg_mask=11, order='desc', checks=ck))
